@@ -66,6 +66,14 @@ def install_wrapper():
         def _recover_dual_values(self):
             return [self.answer["residual"]] + list(self.answer["duals"]), self.answer["residual"]
 
+        # dimension-reduction heuristics: the extra objective / constraint live on the solver side only;
+        # every further solve() call asks the plan for a new answer
+        def prepare_heuristic(self, wc_value, tol_dimension_reduction):
+            self.heuristic_calls = getattr(self, "heuristic_calls", 0)
+
+        def heuristic(self, weight):
+            self.heuristic_calls = getattr(self, "heuristic_calls", 0) + 1
+
     WRAPPERS[WRAPPER_NAME] = FakeSolveWrapper
     return FakeSolveWrapper
 
@@ -108,6 +116,11 @@ def make_answer(rng, n, m, solve_no, sent, fail=False):
         return None, None
     r = rng.randint(1, n) if n else 0
     P0 = [[Fraction(rng.randint(-3, 3), rng.choice([1, 1, 2])) for _ in range(n)] for _ in range(r)]
+    if r >= 2 and rng.random() < 0.35:
+        # badly scaled but legitimate: one direction of the instance is 32..128 times smaller than the others
+        k = rng.randrange(r)
+        sc = Fraction(1, rng.choice([32, 64, 128]))
+        P0[k] = [x * sc for x in P0[k]]
     G = [[sum(P0[k][i] * P0[k][j] for k in range(r)) for j in range(n)] for i in range(n)]
     neg = None
     if n and rng.random() < 0.6:
@@ -226,6 +239,10 @@ def err_kind(e):
     if isinstance(e, ValueError) and "must be solved" in s:
         return "unsolved"
     return "exception:%s:%s" % (type(e).__name__, s[:60])
+
+
+def ok_so_far(crashed, fail):
+    return crashed is None and not fail
 
 
 # ------------------------------------------------------------------------------------------ the world
@@ -530,7 +547,7 @@ class World(object):
         return ft, pt
 
     # ---- solve
-    def solve(self, fail=False, option="primal"):
+    def solve(self, fail=False, option="primal", heuristic=None):
         from PEPit import Point, Expression
         self.sync()
         ft, pt = self.measure_templates()
@@ -542,17 +559,26 @@ class World(object):
         def plan(w):
             n, m = Point.counter, Expression.counter
             ans, exact = make_answer(self.rng, n, m, solve_no, w._list_of_constraints_sent_to_solver, fail=fail)
-            box["exact"] = exact
             if ans is not None:
                 ans["value"] = ans["F"][self.p.objective.counter]
+            if "exact" in box and exact is not None:
+                # a heuristic re-solve: the certificate (duals) stays the one of the first answer (pep.py 575),
+                # the primal instance is the one of the last answer
+                exact["duals"] = box["exact"]["duals"]
+                box["answers"] += 1
+            else:
+                box["answers"] = 1
+            box["exact"] = exact
             return ans
 
         self.W.plan = plan
         crashed = None
         ne_before = Expression.counter
+        psd_before = [id(m) for m in self.p.list_of_psd]
         try:
             with contextlib.redirect_stdout(io.StringIO()):     # the duality-gap warning is printed even with verbose=0
-                ret = self.p.solve(wrapper=WRAPPER_NAME, verbose=0, return_primal_or_dual=option)
+                ret = self.p.solve(wrapper=WRAPPER_NAME, verbose=0, return_primal_or_dual=option,
+                                   dimension_reduction_heuristic=heuristic)
         except Exception as e:      # a solve must not raise
             ret, crashed = None, "%s: %s" % (type(e).__name__, str(e)[:200])
         w = self.W.last
@@ -592,16 +618,30 @@ class World(object):
         out = [Point.counter, Expression.counter, [self.p.objective.counter], items]
         ok = (not fail) and crashed is None
         if ok:
-            self.emit("(Solve (Some %s))" % coq_solution(exact), out, what="Solve#%d ok" % solve_no)
+            self.emit("(Solve (Some %s))" % coq_solution(exact), out,
+                      what="Solve#%d ok%s" % (solve_no, (" heuristic=%s" % heuristic) if heuristic else ""))
         else:
             self.emit("(Solve None)", out, what="Solve#%d failed" % solve_no)
         rec = dict(ok=ok, counts=(n_sc, n_lmi, nnz), edited=self.edited, n=Point.counter, m=Expression.counter,
                    returned=ret, crashed=crashed, new_leaf_exprs=Expression.counter - ne_before,
                    class_lmis=sum(len(l) for _, l in ft), class_cons=sum(len(c) for c, _ in ft),
-                   partition_cons=sum(len(q) for q in pt))
+                   partition_cons=sum(len(q) for q in pt), heuristic=heuristic, answers=box.get("answers", 0))
         # ---- direct checks on the implementation
         if crashed:
             self.problem("solve-raised", error=crashed)
+        cs = [x.counter for x in Expression.list_of_leaf_expressions]
+        if cs != list(range(Expression.counter)) or not any(x is self.p.objective for x in Expression.list_of_leaf_expressions):
+            # every leaf expression owns one coordinate of F; the objective leaf of this solve is a new one
+            self.problem("leaf-expression-registry-broken", counters=cs[-6:], class_counter=Expression.counter,
+                         objective=self.p.objective.counter)
+        ps = [x.counter for x in Point.list_of_leaf_points]
+        if ps != list(range(Point.counter)):
+            self.problem("leaf-point-registry-broken", counters=ps[-6:], class_counter=Point.counter)
+        if [id(m) for m in self.p.list_of_psd] != psd_before:
+            self.problem("solve-edited-the-declared-model", what="list_of_psd", before=len(psd_before),
+                         after=len(self.p.list_of_psd))
+        if ok_so_far(crashed, fail) and w.answer is not None and not np.array_equal(np.asarray(self.p.G_value), w.answer["G"]):
+            self.problem("G_value-is-not-the-solver-matrix", heuristic=heuristic)
         if ok:
             self.epoch += 1
             self.latest = exact
@@ -697,10 +737,9 @@ class World(object):
         info = dict(ref=ref, object_kind=kind, cache_epoch=self.stamp.get(id(o)), epoch=self.epoch,
                     latest_solve_failed=self.last_failed, leaf_points_created_since_solve=self.points_after)
         if got_kind == "shape":
-            if kind == "P" and self.points_after > 0 and id(o) not in self.stamp:
-                self.problem("broadcast-after-new-point", **info)
-            else:
-                self.problem("unexpected-shape-error", **info)
+            # F-C02a (np.zeros(Point.counter) accumulator) was repaired by e997f00: any shape error is a violation
+            self.problem("shape-error-on-eval", regression_of="F-C02a (fixed e997f00)" if kind == "P" and
+                         self.points_after > 0 else None, **info)
             return
         if got_kind not in ("ok", "unsolved"):
             self.problem("eval-raised", error=got_kind, **info)
@@ -716,6 +755,15 @@ class World(object):
             return
         if got_kind == "unsolved":
             self.problem("unsolved-but-solution-exists", want=wantv, **info)
+            return
+        if kind == "P" and self.latest is not None and not self.last_failed and len(got) != self.latest["n"]:
+            # every point of the instance lives in R^n, n = number of leaf points at the latest finite solve
+            if info["cache_epoch"] is not None and info["cache_epoch"] < self.epoch:
+                self.problem("stale-cache-after-resolve", got_dimension=len(got), want_dimension=self.latest["n"], **info)
+            elif len(o.decomposition_dict) == 0 and self.points_after > 0:
+                self.problem("empty-combination-dimension", got_dimension=len(got), want_dimension=self.latest["n"], **info)
+            else:
+                self.problem("dimension-differs", got_dimension=len(got), want_dimension=self.latest["n"], **info)
             return
         flat = lambda v: [x for row in v for x in row] if isinstance(v, list) else [v]
         g, w = flat(gotv), flat(wantv)
@@ -937,7 +985,7 @@ def gen_c02(case_seed):
     build_model(w, rng, rich=rng.random() < 0.5)
     if rng.random() < 0.3:
         random_evals(w, rng, 2)                 # before any solve: everything raises "must be solved"
-    w.solve(option=rng.choice(["primal", "primal", "dual"]))
+    w.solve(option=rng.choice(["primal", "primal", "dual"]), heuristic=rng.choice([None, None, None, "trace", "logdet2"]))
     random_evals(w, rng, rng.randint(3, 6))
     new_objects(w, rng, rng.randint(1, 4))
     random_evals(w, rng, rng.randint(2, 5))
@@ -974,10 +1022,21 @@ def edit(w, rng, conds):
         if c is not None:
             w.add_cond(c)
             conds.append(c)
-    elif r < 0.85:
+    elif r < 0.82:
         w.oracle()
-    elif r < 0.93:
+    elif r < 0.88:
         w.new_point()
+    elif r < 0.96:
+        # a new leaf expression (a new function value, a slack of an LMI, ...) used by a new metric or constraint
+        w.new_expr()
+        x = w.leaf_exprs()[-1]
+        if rng.random() < 0.5:
+            w.add_metric(x)
+        else:
+            c = w.mk_cons(on_held=False)
+            if c is not None:
+                w.add_cond(c)
+                conds.append(c)
     else:
         w.get_block()
 
@@ -993,7 +1052,8 @@ def gen_c13(case_seed):
         if k > 0 and rng.random() < 0.65:
             for _ in range(rng.randint(1, 2)):
                 edit(w, rng, conds)
-        w.solve(fail=(k == fail_at), option=rng.choice(["primal", "primal", "dual"]))
+        w.solve(fail=(k == fail_at), option=rng.choice(["primal", "primal", "dual"]),
+                heuristic=rng.choice([None, None, None, None, "trace", "logdet1"]))
         random_evals(w, rng, rng.randint(2, 5))
         if rng.random() < 0.5:
             new_objects(w, rng, rng.randint(1, 2))
@@ -1001,10 +1061,41 @@ def gen_c13(case_seed):
     return w
 
 
-GENERATORS = {"c02": gen_c02, "c13": gen_c13}
+def gen_c02_regression(case_seed):
+    """the trigger of the repaired F-C02a, deterministic: solve; Point(); evaluate derived points that were not
+    evaluated before (two- and three-term combinations, one built before and one after the new leaf point);
+    plus the empty combination (F-C02b)"""
+    rng = random.Random(990000 + case_seed)
+    w = World(rng)
+    for _ in range(2 + case_seed % 3):
+        w.new_point()
+    w.new_expr()
+    lp = w.leaf_points()
+    d1 = lp[0] - lp[1]
+    r1 = w.reg(d1, "P")
+    w.emit("(MkPoint %s)" % coq_pdict(pdict_items(d1.decomposition_dict)), what="MkPoint #%d" % r1)
+    z = lp[0] - lp[0]
+    rz = w.reg(z, "P")
+    w.emit("(MkPoint %s)" % coq_pdict(pdict_items(z.decomposition_dict)), what="MkPoint(empty) #%d" % rz)
+    w.add_metric(w.leaf_exprs()[0])
+    w.solve()
+    w.new_point()
+    d2 = 2 * lp[1] - lp[0] / 2 + lp[-1]
+    r2 = w.reg(d2, "P")
+    w.emit("(MkPoint %s)" % coq_pdict(pdict_items(d2.decomposition_dict)), what="MkPoint #%d" % r2)
+    w.eval(r1)
+    w.eval(r2)
+    w.eval(rz)
+    w.eval(r1)
+    for i in range(len(lp)):
+        w.eval_leaf_point(i)
+    return w
+
+
+GENERATORS = {"c02": gen_c02, "c13": gen_c13, "c02reg": gen_c02_regression}
 
 KNOWN_KINDS = {"stale-cache-after-resolve": "F-C13a", "values-survive-failed-solve": "F-C13d",
-               "broadcast-after-new-point": "F-C02a"}
+               "empty-combination-dimension": "F-C02b"}
 
 
 def run_stream(name, gen, seeds, own_kinds):
@@ -1015,7 +1106,13 @@ def run_stream(name, gen, seeds, own_kinds):
     problems, hist, distinct = [], {}, set()
     nev = 0
     for cs in seeds:
-        w = GENERATORS[gen](cs)
+        try:
+            w = GENERATORS[gen](cs)
+        except Exception as e:       # the driver of the implementation itself broke: report, keep the stream
+            import traceback
+            problems.append(dict(generator=gen, case_seed=cs, kind="program-raised",
+                                 error=traceback.format_exc()[-600:]))
+            continue
         worlds.append((cs, w))
         cases.append(w.case())
         nev += w.nevals
@@ -1068,7 +1165,10 @@ def run_stream(name, gen, seeds, own_kinds):
 def direct_search(gen, seeds):
     """failing-input search on the implementation alone: first problem that is not a listed finding"""
     for cs in seeds:
-        w = GENERATORS[gen](cs)
+        try:
+            w = GENERATORS[gen](cs)
+        except Exception as e:
+            return dict(generator=gen, case_seed=cs, kind="program-raised", error="%s: %s" % (type(e).__name__, str(e)[:200]))
         for pr in w.problems:
             if pr["kind"] not in KNOWN_KINDS:
                 return dict(generator=gen, case_seed=cs, trace=w.trace[:80], **pr)
@@ -1078,7 +1178,10 @@ def direct_search(gen, seeds):
 def replay_case(payload):
     """True iff the stored case still fails (same problem kind on the implementation, or model mismatch)"""
     gen, cs = payload["generator"], payload["case_seed"]
-    w = GENERATORS[gen](cs)
+    try:
+        w = GENERATORS[gen](cs)
+    except Exception:
+        return True
     kind = payload.get("kind")
     if kind and kind != "model-differs":
         return any(p["kind"] == kind for p in w.problems)
@@ -1096,8 +1199,9 @@ def _quiet_solve(p, **kw):
         return p.solve(verbose=0, **kw)
 
 
-def real_model(idx, radius=1.0):
-    """small, well-conditioned PEPs (gradient-type methods); idx selects the variant"""
+def real_model(idx, radius=1.0, extra=False):
+    """small, well-conditioned PEPs (gradient-type methods); idx selects the variant.
+    extra=True: the same model extended by one more iteration and one more metric (see extend_model)"""
     from PEPit import PEP
     from PEPit.functions import SmoothStronglyConvexFunction, ConvexFunction, SmoothStronglyConvexQuadraticFunction
     from PEPit.operators import SymmetricLinearOperator
@@ -1109,6 +1213,7 @@ def real_model(idx, radius=1.0):
     gamma = rng.choice([0.5, 1.0, 1.5]) / L
     n = rng.randint(1, 3)
     info = dict(kind=kind, L=L, mu=mu, gamma=gamma, n=n, radius=radius)
+    fs = None
     if kind in ("gd", "gd2", "lmi", "partition"):
         f = p.declare_function(SmoothStronglyConvexFunction, mu=mu, L=L)
         xs = f.stationary_point()
@@ -1130,12 +1235,13 @@ def real_model(idx, radius=1.0):
             part.get_block(x0, 0)
             part.get_block(f.gradient(x0), 1)
     elif kind == "symlin":
-        A = p.declare_function(SymmetricLinearOperator, mu=mu, L=L)
+        f = p.declare_function(SymmetricLinearOperator, mu=mu, L=L)
         x0 = p.set_initial_point()
         xs = None
         x = x0
+        gamma = 0.5 / L
         for _ in range(n):
-            x = x - (0.5 / L) * A.gradient(x)
+            x = x - gamma * f.gradient(x)
         cond = x0 ** 2 <= radius
         p.set_initial_condition(cond)
         p.set_performance_metric(x ** 2)
@@ -1149,7 +1255,52 @@ def real_model(idx, radius=1.0):
         cond = (x0 - xs) ** 2 <= radius
         p.set_initial_condition(cond)
         p.set_performance_metric((x - xs) ** 2)
-    return p, dict(x0=x0, xs=xs, x=x, cond=cond, info=info)
+    h = dict(x0=x0, xs=xs, x=x, cond=cond, info=info, f=f, fs=fs, gamma=gamma)
+    if extra:
+        extend_model(p, h)
+    return p, h
+
+
+def extend_model(p, h):
+    """the 'add a metric' edit of C13: one more iteration (new gradient and function-value leaves) and its metric"""
+    f, x, xs, fs = h["f"], h["x"], h["xs"], h["fs"]
+    g, fx = f.oracle(x)
+    x2 = x - h["gamma"] * g
+    if fs is not None:
+        p.set_performance_metric(fx - fs + (x2 - xs) ** 2 / 4)
+    else:
+        base = x2 if xs is None else x2 - xs
+        p.set_performance_metric(base ** 2 + (x * g) / 8)
+    h["x_extra"] = x2
+
+
+def real_badscale(idx):
+    """subgradient method on a convex M-Lipschitz function in a badly scaled but legitimate regime (M = 0.02 or 0.03:
+    |g|^2 ~ M^2 is far below one thousandth of |x0 - xs|^2 = 1), solved WITH a dimension-reduction heuristic"""
+    from math import sqrt
+    from PEPit import PEP
+    from PEPit.functions import ConvexLipschitzFunction
+    M = [0.02, 0.03][idx % 2]
+    n = 2 + (idx // 2) % 2
+    gamma = 1 / (M * sqrt(n + 1))
+    p = PEP()
+    f = p.declare_function(ConvexLipschitzFunction, M=M)
+    xs = f.stationary_point()
+    fs = f(xs)
+    x0 = p.set_initial_point()
+    cond = (x0 - xs) ** 2 <= 1
+    p.set_initial_condition(cond)
+    x = x0
+    gx, fx = f.oracle(x)
+    for _ in range(n):
+        p.set_performance_metric(fx - fs)
+        x = x - gamma * gx
+        gx, fx = f.oracle(x)
+    p.set_performance_metric(fx - fs)
+    h = dict(x0=x0, xs=xs, x=x, cond=cond, f=f, fs=fs, gamma=gamma,
+             info=dict(kind="badscale", M=M, n=n, heuristic=["trace", "logdet1"][(idx // 4) % 2]),
+             solve_kw=dict(dimension_reduction_heuristic=["trace", "logdet1"][(idx // 4) % 2]), scale=M / sqrt(n + 1))
+    return p, h
 
 
 def recompute_expr(d):
@@ -1177,7 +1328,8 @@ def check_instance(p, h, idx, problems, stats):
     """C02 on a real solve: Gram reproduction, constraints at the instance, objective = min metric,
     primal <= dual + tol, derived objects = combination of their operands (also for objects built now)"""
     from PEPit import Point
-    dual = _quiet_solve(p, return_primal_or_dual="dual")
+    heur = bool(h.get("solve_kw"))
+    dual = _quiet_solve(p, return_primal_or_dual="dual", **h.get("solve_kw", {}))
     if dual is None:
         problems.append(dict(kind="real-solve-returned-none", model=idx))
         return
@@ -1186,6 +1338,8 @@ def check_instance(p, h, idx, problems, stats):
     Gp = (evec * np.maximum(ev, 0)) @ evec.T
     primal = float(p.objective.eval())
     scale = max(1.0, abs(primal), float(np.max(np.abs(G))))
+    if heur:
+        scale = h["scale"] * 10        # badly scaled model: everything is measured against the size of its function values
     lp = list(Point.list_of_leaf_points)
     P = np.array([q.eval() for q in lp]).T
     gram_err = float(np.max(np.abs(P.T @ P - Gp)))
@@ -1213,7 +1367,8 @@ def check_instance(p, h, idx, problems, stats):
         problems.append(dict(kind="constraint-violated-at-instance", model=idx, violation=worst, scale=scale))
     mets = [float(m.eval()) for m in p.list_of_performance_metrics]
     stats["obj_gap"] = max(stats.get("obj_gap", 0), abs(primal - min(mets)) / scale)
-    if abs(primal - min(mets)) > 1e-5 * scale:
+    # (with a heuristic the objective is only constrained to [wc - tol_dimension_reduction, min metric]: not compared)
+    if not heur and abs(primal - min(mets)) > 1e-5 * scale:
         problems.append(dict(kind="objective-is-not-min-metric", model=idx, objective=primal, metrics=mets))
     stats["pd_gap"] = max(stats.get("pd_gap", -1), (primal - dual) / scale)
     if primal > dual + 1e-3 * scale:
@@ -1228,6 +1383,19 @@ def check_instance(p, h, idx, problems, stats):
     want = float(np.dot(dnew.eval(), dnew.eval()) + 3 * np.dot(x.eval(), x0.eval()) - 1)
     if abs(float(e.eval()) - want) > 1e-9 * scale * scale:
         problems.append(dict(kind="value-differs", model=idx, what="expression built after the solve"))
+    # regression of F-C02a (fixed e997f00): a new leaf point, then a derived point that was never evaluated
+    Point()
+    late = x0 - 3 * x
+    try:
+        v = late.eval()
+        if v.shape != x0.eval().shape or np.max(np.abs(v - (x0.eval() - 3 * x.eval()))) > 1e-10 * scale:
+            problems.append(dict(kind="value-differs", model=idx, what="derived point evaluated after a new leaf point"))
+    except ValueError as ex:
+        problems.append(dict(kind="shape-error-on-eval", model=idx, regression_of="F-C02a (fixed e997f00)", error=str(ex)[:120]))
+    # G_value is the matrix the solver returned at its last call
+    Gs = getattr(p.wrapper, "optimal_G", None)
+    if Gs is not None and not np.array_equal(np.asarray(p.G_value), np.asarray(Gs)):
+        problems.append(dict(kind="G_value-is-not-the-solver-matrix", model=idx))
 
 
 def check_resolve(idx, problems, stats, known_hits):
@@ -1247,15 +1415,33 @@ def check_resolve(idx, problems, stats, known_hits):
         problems.append(dict(kind="unchanged-resolve-value-differs", model=idx, first=v1, second=v2))
     if c1 != c2:
         problems.append(dict(kind="growth", model=idx, previous=c1, now=c2, what="real classes, unchanged model"))
-    # replace the initial condition: radius 1 -> 4
+    # edit 1: one more iteration and a metric (new leaf expressions between two solves)
+    extend_model(p, h)
+    v_ext = _quiet_solve(p)
+    c_ext = sent_counts(p)
+    # edit 2: replace the initial condition, radius 1 -> 4
     p.list_of_constraints = [c for c in p.list_of_constraints if c is not h["cond"]]
-    cond4 = base ** 2 <= 4
-    p.set_initial_condition(cond4)
+    p.set_initial_condition(base ** 2 <= 4)
     v3 = _quiet_solve(p)
-    pf, hf = real_model(idx, radius=4.0)           # the newly built equivalent model
+    c3 = sent_counts(p)
+    held_after = float(held.eval())
+    # the newly built equivalent models (built LAST: PEP() resets the class counters p's new objects rely on)
+    pe, he = real_model(idx, extra=True)
+    v_ext_fresh = _quiet_solve(pe)
+    c_ext_fresh = sent_counts(pe)
+    pf, hf = real_model(idx, radius=4.0, extra=True)
     vf = _quiet_solve(pf)
-    p.wrapper  # noqa (the PEP() of the fresh model reset the class counters only; objects of p stay valid)
-    stats["edit_diff"] = max(stats.get("edit_diff", 0), abs(v3 - vf) / max(1.0, abs(vf)))
-    if abs(v3 - vf) > 1e-3 * max(1.0, abs(vf)):
-        problems.append(dict(kind="edited-resolve-differs-from-fresh-model", model=idx, resolved=v3, fresh=vf))
-    return dict(v1=v1, v2=v2, v3=v3, fresh=vf, held_after_edit=float(held.eval()), held_first=h1, counts=(c1, c2))
+    cf = sent_counts(pf)
+    for name, a, b, ca, cb in (("one more iteration + metric", v_ext, v_ext_fresh, c_ext, c_ext_fresh),
+                               ("initial condition radius 1 -> 4", v3, vf, c3, cf)):
+        if a is None or b is None:
+            problems.append(dict(kind="real-solve-returned-none", model=idx, edit=name))
+            continue
+        stats["edit_diff"] = max(stats.get("edit_diff", 0), abs(a - b) / max(1.0, abs(b)))
+        if abs(a - b) > 1e-3 * max(1.0, abs(b)):
+            problems.append(dict(kind="edited-resolve-differs-from-fresh-model", model=idx, edit=name, resolved=a, fresh=b))
+        if ca != cb:
+            problems.append(dict(kind="growth", model=idx, what="edited model sends other amounts than the same model "
+                                 "built anew (%s)" % name, previous=cb, now=ca))
+    return dict(v1=v1, v2=v2, v_ext=v_ext, v_ext_fresh=v_ext_fresh, v3=v3, fresh=vf, held_after_edit=held_after,
+                held_first=h1, counts=(c1, c2, c_ext, c3))
